@@ -24,22 +24,23 @@ theorem succ_facts {s s' : St} {t : Tid} {a : Act Op} (hi : Inv s) (hs : step s 
     (∀ d, s.pc u = .wRelock d false → s'.pc u = .wRelock d false ∨ (s.flag = true → s'.succ = s.succ + 1)) ∧
     -- an untimed blocked waiter leaves the wait set only as a woken waiter
     (∀ sw, s.pc u = .wBlocked none sw → (∃ sw', s'.pc u = .wBlocked none sw') ∨ s'.pc u = .wRelock none false) ∧
-    (s.pc u = .setUnlock → s'.pc u = .setUnlock ∨ s'.pc u = .setSignal) ∧
+    (s.sigFirst = false → s.pc u = .setUnlock → s'.pc u = .setUnlock ∨ s'.pc u = .setSignal) ∧
     (t = u → a = .run 0 → s'.pc u ≠ s.pc u) ∧
     (t ≠ u → isBlocked (s.pc u) = false → s'.pc u = s.pc u) ∧
     -- the step that takes `t` away from the signal wakes a waiter unless the wait set is empty
     (s.pc t = .setSignal → s'.pc t ≠ .setSignal → s.waiters = [] ∨ ∃ w d, s'.pc w = .wRelock d false) ∧
     s.succ ≤ s'.succ ∧
-    (s.flag = true → s'.flag = true ∨ s'.succ = s.succ + 1) := by
-  obtain ⟨h1, h2, h3, h4, h5, h6⟩ := hi
+    (s.flag = true → s'.flag = true ∨ s'.succ = s.succ + 1) ∧
+    s'.sigFirst = s.sigFirst := by
+  obtain ⟨h1, h2, h3, h4, h5, h6, h7⟩ := hi
   cases a with
-  | tick q => simp [step] at hs; subst hs; refine ⟨?_, ?_, ?_, ?_, ?_, ?_, ?_, ?_⟩ <;> intros <;> simp_all
+  | tick q => simp [step] at hs; subst hs; refine ⟨?_, ?_, ?_, ?_, ?_, ?_, ?_, ?_, ?_⟩ <;> intros <;> simp_all
   | call op =>
     simp only [step] at hs
     split at hs
     · rename_i hidle
       simp at hs; subst hs
-      cases op <;> (refine ⟨?_, ?_, ?_, ?_, ?_, ?_, ?_, ?_⟩ <;> intros <;> grind [upd, isBlocked])
+      cases op <;> (refine ⟨?_, ?_, ?_, ?_, ?_, ?_, ?_, ?_, ?_⟩ <;> intros <;> grind [upd, isBlocked])
     · simp at hs
   | run alt =>
     simp only [step] at hs
@@ -47,47 +48,49 @@ theorem succ_facts {s s' : St} {t : Tid} {a : Act Op} (hi : Inv s) (hs : step s 
     case setSignal =>
       split at hs
       · rename_i w hw
-        simp [done] at hs; subst hs
         have hwb := (h1 w).1 (mem_of_get hw)
         have hwt : w ≠ t := by intro e; subst e; simp [hpc, isBlocked] at hwb
-        refine ⟨?_, ?_, ?_, ?_, ?_, ?_, ?_, ?_⟩
-        · intro d hu; left
-          have h1' : u ≠ t := by intro e; subst e; simp [hpc] at hu
-          have h2' : u ≠ w := by intro e; subst e; simp [hu, isBlocked] at hwb
-          simp [upd, h1', h2', hu]
-        · intro sw hu
-          have h1' : u ≠ t := by intro e; subst e; simp [hpc] at hu
-          by_cases h2' : u = w
-          · right; subst h2'; simp [upd, h1', hu, wake]
-          · left; exact ⟨sw, by simp [upd, h1', h2', hu]⟩
-        · intro hu
-          have h1' : u ≠ t := by intro e; subst e; simp [hpc] at hu
-          have h2' : u ≠ w := by intro e; subst e; simp [hu, isBlocked] at hwb
-          left; simp [upd, h1', h2', hu]
-        · intro e _; subst e; simp [upd, hpc]
-        · intro htu hnb
-          have h2' : u ≠ w := by intro e; subst e; simp [hnb] at hwb
-          simp [upd, Ne.symm htu, h2']
-        · intro _ _; right
-          cases hp : s.pc w <;> simp [hp, isBlocked] at hwb
-          rename_i dlw sww
-          exact ⟨w, dlw, by simp [upd, hwt, wake]⟩
-        · simp
-        · intro hf; left; simpa using hf
+        cases hp : s.pc w <;> simp [hp, isBlocked] at hwb
+        rename_i dlw sww
+        cases hsf : s.sigFirst <;> (simp [afterSignal, hsf, done, goto] at hs; subst hs) <;>
+        · refine ⟨?_, ?_, ?_, ?_, ?_, ?_, ?_, ?_, ?_⟩
+          · intro d hu; left
+            have h1' : u ≠ t := by intro e; subst e; simp [hpc] at hu
+            have h2' : u ≠ w := by intro e; subst e; simp [hu] at hp
+            simp [upd, h1', h2', hu]
+          · intro sw hu
+            have h1' : u ≠ t := by intro e; subst e; simp [hpc] at hu
+            by_cases h2' : u = w
+            · right; subst h2'; simp [upd, h1', hu, wake]
+            · left; exact ⟨sw, by simp [upd, h1', h2', hu]⟩
+          · intro _ hu
+            have h1' : u ≠ t := by intro e; subst e; simp [hpc] at hu
+            have h2' : u ≠ w := by intro e; subst e; simp [hu] at hp
+            left; simp [upd, h1', h2', hu]
+          · intro e _; subst e; simp [upd, hpc]
+          · intro htu hnb
+            have h2' : u ≠ w := by intro e; subst e; simp [hp, isBlocked] at hnb
+            simp [upd, Ne.symm htu, h2']
+          · intro _ _; right
+            exact ⟨w, dlw, by simp [upd, hwt, hp, wake]⟩
+          · simp
+          · intro hf; left; simpa using hf
+          · simp [hsf]
       · rename_i hnone
         split at hs
         · rename_i h0
-          simp [done] at hs; subst hs; subst h0
+          subst h0
           have hw : s.waiters = [] := by
             cases hl : s.waiters with
             | nil => rfl
             | cons a l => simp [hl] at hnone
-          refine ⟨?_, ?_, ?_, ?_, ?_, ?_, ?_, ?_⟩ <;> intros <;> grind [upd, isBlocked]
+          cases hsf : s.sigFirst <;> (simp [afterSignal, hsf, done, goto] at hs; subst hs) <;>
+            (refine ⟨?_, ?_, ?_, ?_, ?_, ?_, ?_, ?_, ?_⟩ <;> intros <;> grind [upd, isBlocked])
         · simp at hs
     all_goals
       try simp only [goto, done] at hs
       (repeat' split at hs) <;> simp at hs <;> (try subst hs) <;>
-        (refine ⟨?_, ?_, ?_, ?_, ?_, ?_, ?_, ?_⟩ <;> intros <;>
+        (refine ⟨?_, ?_, ?_, ?_, ?_, ?_, ?_, ?_, ?_⟩ <;> intros <;>
           grind [upd, isBlocked, markSaw, isBlocked_markSaw, markSaw_setUnlock, markSaw_relock, markSaw_of_not_blocked])
 
 variable {now spur : Nat}
@@ -105,13 +108,26 @@ theorem succ_mono' (r : Run St Op step) (h0 : Reach now spur (r.st 0)) {k m : Na
   have := succ_mono r h0 k (m - k)
   rwa [Nat.add_sub_cancel' h] at this
 
+theorem sigFirst_const (r : Run St Op step) (h0 : Reach now spur (r.st 0)) (k : Nat) :
+    ∀ d, (r.st (k + d)).sigFirst = (r.st k).sigFirst
+  | 0 => rfl
+  | d + 1 => by
+    have := (succ_facts (inv_reach (reach_run r h0 (k + d))) (r.ok (k + d)) 0).2.2.2.2.2.2.2.2
+    show (r.st (k + d + 1)).sigFirst = _
+    rw [this, sigFirst_const r h0 k d]
+
+theorem sigFirst_const' (r : Run St Op step) (h0 : Reach now spur (r.st 0)) {k m : Nat} (h : k ≤ m) :
+    (r.st m).sigFirst = (r.st k).sigFirst := by
+  have := sigFirst_const r h0 k (m - k)
+  rwa [Nat.add_sub_cancel' h] at this
+
 /-- while no wait has succeeded since `n`, the flag that was set at `n` is still set -/
 theorem flag_stays (r : Run St Op step) (h0 : Reach now spur (r.st 0)) (n : Nat) (hf : (r.st n).flag = true) :
     ∀ d, (r.st (n + d)).flag = true ∨ (r.st n).succ < (r.st (n + d)).succ
   | 0 => Or.inl hf
   | d + 1 => by
     rcases flag_stays r h0 n hf d with h | h
-    · rcases (succ_facts (inv_reach (reach_run r h0 (n + d))) (r.ok (n + d)) 0).2.2.2.2.2.2.2 h with h' | h'
+    · rcases (succ_facts (inv_reach (reach_run r h0 (n + d))) (r.ok (n + d)) 0).2.2.2.2.2.2.2.1 h with h' | h'
       · exact Or.inl h'
       · right
         have := succ_mono r h0 n d
@@ -197,15 +213,16 @@ theorem set_eventually_releases_a_waiter (r : Run St Op step) (h0 : Reach now sp
       rename_i d b
       cases b <;> simp at hv
       exact stage_woken r h0 hsf hfree n hf n (Nat.le_refl _) v d hp
-    · -- setUnlock
+    · -- setUnlock (only pending in the unlock-first order)
       obtain ⟨m, hm, hP, hN⟩ := wf_leaves r hwf (fun s => s.pc v = .setUnlock) v n hp
-        (fun m _ hP => by
+        (fun m hm' hP => by
           have := (inv_reach (reach_run r h0 m)).setOwn v hP
-          simp [prog, hP, step, this])
+          have hsfm : (r.st m).sigFirst = false := by rw [sigFirst_const' r h0 hm']; exact hv
+          simp [prog, hP, step, this, hsfm])
         (fun m _ hP ht hP' => by
           have := (succ_facts (inv_reach (reach_run r h0 m)) (r.ok m) v).2.2.2.1 ht.1 ht.2
           exact this (by rw [hP', hP]))
-      rcases (succ_facts (inv_reach (reach_run r h0 m)) (r.ok m) v).2.2.1 hP with h | h
+      rcases (succ_facts (inv_reach (reach_run r h0 m)) (r.ok m) v).2.2.1 (by rw [sigFirst_const' r h0 hm]; exact hv) hP with h | h
       · exact absurd h hN
       · exact fromSignal (m + 1) (by omega) h
     · exact fromSignal n (Nat.le_refl _) hp
